@@ -522,7 +522,7 @@ func tapLog(d *dlog) *ssh.VerifTap {
 }
 
 func runSetupB(m *mon.M) {
-	total := m.N(400, 8000)
+	total := m.N(400, 10000)
 	m.Cases("goserver", total, func(i int64, r *rand.Rand) {
 		spec, b := genB(r, i)
 		want := predict(spec, b)
@@ -593,6 +593,11 @@ func runSetupB(m *mon.M) {
 		}
 		okC, okS := cliErr == nil, srvErr == nil
 		m.Count("b_predicted:"+want, 1)
+		if tapped {
+			m.Count("b_client:VerifNewClientConn+tap", 1)
+		} else {
+			m.Count("b_client:NewClientConn", 1)
+		}
 		m.Count(fmt.Sprintf("b_chain_len:%d", len(b.steps)), 1)
 		m.Distinct(fmt.Sprintf("B %s steps=%d ok=%v", want, len(b.steps), okC))
 		if okC != okS {
@@ -632,6 +637,10 @@ func runSetupB(m *mon.M) {
 		if tapped {
 			fs, st := judge(spec, nil, d)
 			for k, v := range st {
+				if strings.HasPrefix(k, "D|") {
+					m.Distinct("B " + k)
+					continue
+				}
 				m.Count("b_tap:"+k, v)
 			}
 			for _, f := range fs {
